@@ -703,6 +703,10 @@ def py_chain_type(tys: list[Ty], ops: list[str]) -> Ty:
 # tranp node -> s-expression
 
 
+CLASS_NAMES: set[str] = set()   # user class names of the program being serialised (set by harness/c03_prog_stream.py)
+USER_FUNCS: set[str] = set()    # its module-level functions: a call is typed by the declared return type (not part of the model)
+
+
 def node_sexp(n: Any) -> str:
 	import rogw.tranp.syntax.node.definition as defs
 	if isinstance(n, defs.Integer):
@@ -724,10 +728,16 @@ def node_sexp(n: Any) -> str:
 		return 'false'
 	if isinstance(n, defs.Null):
 		return 'none'
-	if isinstance(n, (defs.ThisRef, defs.ClassRef)):
-		raise Unsupported('self/cls')
+	if isinstance(n, defs.ClassRef):
+		raise Unsupported('cls')
+	if isinstance(n, defs.ThisRef):
+		return '( var self )'
 	if isinstance(n, defs.Var):
+		if n.tokens in CLASS_NAMES:
+			raise Unsupported('class reference')   # `C.x`, `E.M`: class objects are not values of the model
 		return f'( var {n.tokens} )'
+	if isinstance(n, defs.Relay):
+		return f'( attr {node_sexp(n.receiver)} {n.prop.tokens} )'
 	if isinstance(n, defs.Factor):
 		return f'( factor {n.operator.tokens} {node_sexp(n.value)} )'
 	if isinstance(n, defs.NotCompare):
@@ -778,6 +788,8 @@ def node_sexp(n: Any) -> str:
 		calls = n.calls
 		if isinstance(calls, defs.Relay):
 			return f"( call {node_sexp(calls.receiver)} {calls.prop.tokens} {' '.join(args)} )".replace('  ', ' ')
+		if type(calls) is defs.Var and calls.tokens in USER_FUNCS:
+			raise Unsupported('call of a user function')
 		if type(calls) is defs.Var:
 			return f"( fcall {calls.tokens} {' '.join(args)} )".replace('  ', ' ')
 		raise Unsupported(f'call of {type(calls).__name__}')
